@@ -264,7 +264,7 @@ class CallMixin:
       self.env['result'] = res
       self.spec_env_old = dict(env)
       for r in c.ensures:
-        self.assume(self.spec(r))
+        self.assume(self.spec(r[4:] if r.startswith('aux:') else r))
       self.used_contracts.add(c.label)
       return res
     finally:
@@ -362,6 +362,26 @@ class CallMixin:
                          z3.ForAll([k], z3.Implies(z3.And(0 <= k, k < r),
                                                    z3.Not(s.elem.eq(s.at(t, k), x.t))))))
       return V(S.INT, r)
+    if name == 'popleft' and not args:
+      # collections.deque modelled as a list (A-LIB): popleft() == pop(0)
+      n = s.len(t)
+      self.oblige_or_raise(n > 0, 'IndexError', 'popleft from non-empty deque', node)
+      p_ = z3.FreshConst(z3.IntSort(), 'p')
+      tail = z3.FreshConst(z3.ArraySort(z3.IntSort(), s.elem.z3()), 'tail')
+      # a named array with pointwise facts triggered from both sides (E-matching cannot invert p+1)
+      self.assume(z3.ForAll([p_], z3.Implies(z3.And(0 <= p_, p_ < n - 1), z3.Select(tail, p_) == s.at(t, p_ + 1)),
+                            patterns=[z3.Select(tail, p_)]))
+      self.assume(z3.ForAll([p_], z3.Implies(z3.And(1 <= p_, p_ < n), z3.Select(tail, p_ - 1) == s.at(t, p_)),
+                            patterns=[s.at(t, p_)]))
+      self.store_back(bm.lval, V(s, s.mk(tail, n - 1)))
+      return V(s.elem, s.at(t, 0))
+    if name == 'extendleft' and len(args) == 1 and isinstance(args[0], tuple) and args[0] and args[0][0] == 'reversed':
+      # extendleft(reversed(ys)) prepends ys keeping their order
+      ys = self.coerce(args[0][1], s) if not isinstance(args[0][1], V) else args[0][1]
+      if ys.sort is not s:
+        raise Unsupported('extendleft of %s onto %s' % (ys.sort, s))
+      self.store_back(bm.lval, V(s, s.concat(ys.t, t)))
+      return NONE
     raise Unsupported('list.%s' % name)
 
   def dict_method(self, bm, s, name, args, kwargs, node):
